@@ -324,6 +324,23 @@ class C19(Prop):
             names = sorted({p[-1] for p in poss if isinstance(p[-1], str)})
             for name in rng.sample(names, min(len(names), 2)) + ["zz"] * (rng.random() < 0.2):
                 add("findall", "rnd:desc", tree=t, desc=name, xp=rng.choice(["//*/", "//*/", "*/", "/*/"]) + name)
+            # the sibling idiom: an exact path to a dictionary (the root included), a text() condition on one of its string
+            # leaves, '..' back to the dictionary, another of its keys: exactly that node when the text matches, nothing otherwise
+            dicts = [()] * isinstance(t, dict) + [pp for pp in poss if isinstance(at(t, pp), dict)]
+            rng.shuffle(dicts)
+            for pp in dicts[:2]:
+                dd = at(t, pp)
+                ks = [k for k, v in dd.items() if isinstance(v, str) and v.isalnum() and v.isascii()
+                      and re.match(r"^[A-Za-z]\w*$", k)]
+                fs = [f for f in dd if re.match(r"^[A-Za-z]\w*$", f)]
+                if not ks or len(fs) < 2:
+                    continue
+                k = rng.choice(ks)
+                f = rng.choice([f for f in fs if f != k])
+                hit = rng.random() < 0.75
+                base = key_of(pp)[2:]
+                xp = rng.choice(["//", "/", ""]) + (base + "/" if base else "") + "%s[text()=%s]/../%s" % (k, dd[k] if hit else "zz9", f)
+                add("findall", "rnd:sibling", tree=t, xp=xp, expect=[list(pp) + [f]] if hit else [])
             for _ in range(5):
                 add(rng.choice(["findall", "findall", "findall", "findfirst"]), "rnd:misc", tree=t, xp=gen_misc_expr(rng, t, poss),
                     rx=rng.random() < 0.5)
@@ -509,6 +526,8 @@ class C19(Prop):
                 out = [[k, id(v)] for k, v in res]
             elif "desc" in i and in_domain(i["tree"]):
                 out = [[key_of(p), id(at(d, p))] for p in all_named(i["tree"], i["desc"])]
+            elif "expect" in i and in_domain(i["tree"]):
+                out = [[key_of(tuple(p)), id(at(d, tuple(p)))] for p in i["expect"]]
         except (IndexError, LookupError):
             out = None
         return out
@@ -547,7 +566,7 @@ class C19(Prop):
                 return "TREE-MODIFIED by findall(%r)" % i["xp"]
             if aux.get("unresolved"):
                 return "UNRESOLVED: keys %s of findall(%r) do not resolve by item access to the identical value" % (aux["unresolved"][:3], i["xp"])
-            if "steps" in i or "desc" in i:
+            if "steps" in i or "desc" in i or "expect" in i:
                 what = "descendant search '//*/%s'" % i["desc"] if "desc" in i else "path %r" % i["xp"]
                 if oc[0] == "s":
                     exp = self.expected(i)
@@ -598,6 +617,8 @@ class C19(Prop):
                 return res
             if "desc" in i and in_domain(i["tree"]):
                 return all_named(i["tree"], i["desc"])
+            if "expect" in i and in_domain(i["tree"]):
+                return [tuple(p) for p in i["expect"]]
         except (IndexError, LookupError):
             return None
         return None
